@@ -18,5 +18,5 @@ CONSTANTS
   MaxNow = 16
   WdKinds <- WdKindsLogs
   QWdFirst = TRUE
-INVARIANTS WdExitOnlyIfStale
+INVARIANTS WdNoStaleSkipped
 CHECK_DEADLOCK FALSE
